@@ -60,6 +60,15 @@ func (k *vPriv) LibP2P() (libp2pcrypto.PrivKey, error) { return nil, errors.New(
 type vKS struct{}
 
 func (vKS) PubKeyFromProto(b []byte) (crypto.PubKey, error) {
+	return vPubFromProto(b)
+}
+
+// vPubFromProto: the "proto" encoding of a key is its id; like a protobuf message, a key also has
+// non-canonical encodings (here: trailing '~' bytes) that decode to the same key and that Marshall never produces.
+func vPubFromProto(b []byte) (crypto.PubKey, error) {
+	for len(b) > 0 && b[len(b)-1] == '~' {
+		b = b[:len(b)-1]
+	}
 	if len(b) == 0 {
 		return nil, errors.New("verif: empty key")
 	}
